@@ -699,6 +699,20 @@ def run_schedule(jobs_mod, qserve_mod, ops, choices, props, nworkers=3, pickler=
             d["choices"] = sim.choice_log
             d["sig"] = d["prop"] + "|" + d["kind"] + ("|" + str(d.get("cause")) if d.get("cause") else "")
             return d
+        except Exception as e:
+            # an rpc_* call of the real server raised (the client would get an error instead of an answer): a violation when the
+            # exception comes out of the server's own code; anything else is a harness problem and propagates
+            tb = e.__traceback__
+            last = None
+            while tb is not None:
+                last = tb.tb_frame
+                tb = tb.tb_next
+            fname = (last.f_code.co_filename if last is not None else "") or ""
+            if "/qs/" not in fname and "qs." not in (last.f_globals.get("__name__", "") if last is not None else ""):
+                raise
+            prop = "C17" if "C17" in props else props[0]
+            return {"prop": prop, "kind": "server-raised", "exc": type(e).__name__, "detail": str(e)[:100], "where": last.f_code.co_name,
+                    "history": sim.history, "choices": sim.choice_log, "sig": f"{prop}|server-raised|{type(e).__name__}|{last.f_code.co_name}"}
         return None
     finally:
         sim.cleanup()
